@@ -291,6 +291,8 @@ def extra_fuzz(nq, nt):
                         key = 'default-value-starting-with-a-block'
                     if d['kind'] == 'parse' and 'reserved for future use' in d['detail']:
                         key = 'where-clause-starting-with-angle-bracket'
+                    if d['kind'] == 'parse' and re.search(r'\bdyn\b[^;{}]*\+\s*(\{|,|;|\)|>|where\b|=|\})', d['item'] + ' ; ' + d['args']):
+                        key = 'trait-object-with-trailing-plus'
                     if key and key in known:
                         if not any(k.startswith(key) for k in known_hit):
                             known_hit.append(f'{key} {known[key]}')
